@@ -231,7 +231,7 @@ Print Assumptions C14_ntske_total.
 
 (* an Error record ends the exchange with the class of its code *)
 Theorem C14_ntske_error_record : forall x fuel rest d, 0 <= x < 65536 ->
-  read_data (list Z) rf_flat rf_flat (S fuel) (pack_record (RError x) ++ rest) d =
+  read_data (list Z) rf_flat rf_flat (fun _ => []) (S fuel) (pack_record (RError x) ++ rest) d =
   (d, (if x =? 0 then e_msg_critical else if x =? 1 then e_msg_badreq
        else if x =? 2 then e_msg_internal else e_msg_unknown), rest).
 Proof. exact read_step_error. Qed.
@@ -279,6 +279,28 @@ Theorem C14_nts_fields : forall hdr tail p nonce ct p0,
             nts_decode p0 e = (nts_decoded p0 p nonce ct, d_ok).
 Proof. exact nts_dec_enc. Qed.
 Print Assumptions C14_nts_fields.
+
+(* the cookie fields INSIDE the encrypted part of a response: for a server's cookies (one length,
+   a multiple of 4, at least 24 bytes, at least one fitting a packet next to an identifier of
+   idlen bytes) NewResponsePacket's plaintext is the extension fields of the first
+   min(n, maxCookies) cookies, and the walk authenticate makes over the decrypted plaintext
+   appends exactly these cookies, in order, each as kind 0x204 *)
+Theorem C14_nts_response_cookies : forall c0 cs idlen acc,
+  let cookies := c0 :: cs in
+  let l := length c0 in
+  Forall (fun c => length c = l) cookies -> (l mod 4 = 0)%nat -> (24 <= l)%nat ->
+  (1 <= max_cookies idlen l)%nat ->
+  let sent := firstn (Nat.min (length cookies) (max_cookies idlen l)) cookies in
+  exists plain, nts_response_plain cookies idlen = Ok plain /\
+    plain = flat_map (ext_field ext_cookie) sent /\
+    nts_auth_walk (length plain) plain 0 acc = (acc ++ map (ext_of ext_cookie) sent, d_ok).
+Proof. exact nts_response_roundtrip. Qed.
+Print Assumptions C14_nts_response_cookies.
+
+Theorem C14_nts_response_meets_oracle : forall cs,
+  C14_resp_cookies_ok cs (map (ext_of ext_cookie) cs) = true.
+Proof. exact (fields_ok_map ext_cookie). Qed.
+Print Assumptions C14_nts_response_meets_oracle.
 
 Theorem C14_nts_pad4 : forall v, (length v <= length (pad4 v) < length v + 4)%nat /\ (length (pad4 v) mod 4 = 0)%nat /\
   firstn (length v) (pad4 v) = v.
